@@ -59,8 +59,10 @@ def diffFromLcsAux {α} (mk : Nat → List α → List Op → List Op) (B : List
       let di := if j > y then mk x ((B.drop y).take (j - y)) di else di
       diffFromLcsAux mk B N M ps (i + 1) (j + 1) di
 
+def mkAddrange (k : Nat) (vs : List J) (di : List Op) : List Op := seqAddrange di k vs
+
 def diffFromLcs (A B : List J) (ps : List (Nat × Nat)) : List Op :=
-  diffFromLcsAux (fun k vs di => seqAddrange di k vs) B A.length B.length ps 0 0 []
+  diffFromLcsAux mkAddrange B A.length B.length ps 0 0 []
 
 /-- `diff_sequence_bruteforce` -/
 def diffSequence (cmp : J → J → Except Err Bool) (A B : List J) : Except Err (List Op) := do
